@@ -624,6 +624,16 @@ func (w *World) builtin(fr *frame, mem *Memory, call *ssa.Call, b *ssa.Builtin) 
 // PutUint32,PutUint64} on byte windows.
 func (w *World) external(mem *Memory, call *ssa.Call, fn *ssa.Function, args []Value) (Value, bool) {
 	obj, _ := fn.Object().(*types.Func)
+	if obj != nil && obj.Pkg() != nil && obj.Pkg().Path() == "math/bits" && w.WrapMode && (obj.Name() == "Add64" || obj.Name() == "Sub64") && len(args) == 3 {
+		x, ok1 := args[0].(*Int)
+		y, ok2 := args[1].(*Int)
+		c, ok3 := args[2].(*Int)
+		if !ok1 || !ok2 || !ok3 {
+			return nil, false
+		}
+		res, carry := w.addCarry(call, x, y, c, obj.Name() == "Sub64")
+		return &Tuple{[]Value{res, carry}}, true
+	}
 	if obj == nil || obj.Pkg() == nil || obj.Pkg().Path() != "encoding/binary" {
 		return nil, false
 	}
